@@ -13,7 +13,21 @@ import (
 func init() { generators["C18"] = genC18 }
 
 // finite ordinates that stress decimal rounding
+// machineBoundaries: whole numbers at the edges of the machine integer types and of float64's
+// exact-integer range, where integer fast paths and conversions change behaviour.
+var machineBoundaries = func() []float64 {
+	var out []float64
+	for _, e := range []int{7, 8, 15, 16, 31, 32, 52, 53, 62, 63, 64, 65, 127, 128} {
+		p := math.Ldexp(1, e)
+		out = append(out, p, -p, p-1, -(p - 1), math.Nextafter(p, 0), math.Nextafter(p, math.Inf(1)), -math.Nextafter(p, 0))
+	}
+	return append(out, 1e15, 1e16, 1e17, 1e20, 1e21, 1e22, 999999999999999.9, 4503599627370496.5, 9007199254740993)
+}()
+
 func (r *Rng) decimalOrd() float64 {
+	if r.chance(1, 12) {
+		return machineBoundaries[r.Intn(len(machineBoundaries))]
+	}
 	switch r.Intn(14) {
 	case 0:
 		return 0
